@@ -121,20 +121,39 @@ func ruleSubShare(c *Ctx) {
 			good, why = false, "it is tested outside the replacement callback"
 		default:
 			// on the !global side the next test is on the match counter and then the match is returned unchanged
-			nb := iff.Block().Succs[1]
+			returnsMatch := func(ret *ssa.BasicBlock) bool {
+				if len(ret.Instrs) == 0 {
+					return false
+				}
+				r, ok := ret.Instrs[len(ret.Instrs)-1].(*ssa.Return)
+				if !ok || len(r.Results) != 1 {
+					return false
+				}
+				_, isParam := r.Results[0].(*ssa.Parameter)
+				return isParam
+			}
+			counterTest := func(b *ssa.BasicBlock) (*ssa.If, bool) {
+				if len(b.Instrs) == 0 {
+					return nil, false
+				}
+				in2, ok := b.Instrs[len(b.Instrs)-1].(*ssa.If)
+				if !ok {
+					return nil, false
+				}
+				cmp, ok := in2.Cond.(*ssa.BinOp)
+				return in2, ok && cmp.Op == token.GTR
+			}
 			okShape := false
-			if len(nb.Instrs) > 0 {
-				if in2, ok := nb.Instrs[len(nb.Instrs)-1].(*ssa.If); ok {
-					if cmp, ok := in2.Cond.(*ssa.BinOp); ok && cmp.Op == token.GTR {
-						ret := nb.Succs[0]
-						if len(ret.Instrs) > 0 {
-							if r, ok := ret.Instrs[len(ret.Instrs)-1].(*ssa.Return); ok && len(r.Results) == 1 {
-								if _, isParam := r.Results[0].(*ssa.Parameter); isParam {
-									okShape = true
-								}
-							}
-						}
-					}
+			// (a) `!global && count > 0`: the counter is tested on the !global side
+			nb := iff.Block().Succs[1]
+			if _, ok := counterTest(nb); ok && returnsMatch(nb.Succs[0]) {
+				okShape = true
+			}
+			// (b) `count > 0 && !global`: the flag is tested on the count>0 side of a counter test
+			gb := iff.Block()
+			if len(gb.Preds) == 1 {
+				if _, ok := counterTest(gb.Preds[0]); ok && gb.Preds[0].Succs[0] == gb && returnsMatch(gb.Succs[1]) {
+					okShape = true
 				}
 			}
 			if !okShape {
@@ -199,28 +218,64 @@ func ruleSubShare(c *Ctx) {
 	bad := ""
 	var badPos token.Pos
 	n := 0
-	for _, u := range ru {
-		n++
-		switch in := u.(type) {
-		case *ssa.Lookup: // repl[i] on a string
-			if _, isStr := in.X.Type().Underlying().(*types.Basic); isStr && u.Parent() != fn {
-				continue
+	// byteWise: every use is repl[i] or len(repl) - or handing the text to a helper of this package whose own
+	// parameter is again only read that way (the expansion loop may live in a function of its own)
+	var byteWise func(uses []ssa.Instruction, inOuter func(ssa.Instruction) bool, depth int) bool
+	byteWise = func(uses []ssa.Instruction, inOuter func(ssa.Instruction) bool, depth int) bool {
+		all := true
+		for _, u := range uses {
+			n++
+			okUse := false
+			switch in := u.(type) {
+			case *ssa.Lookup: // repl[i] on a string
+				if _, isStr := in.X.Type().Underlying().(*types.Basic); isStr && !inOuter(u) {
+					okUse = true
+				}
+			case *ssa.Index: // repl[i] (go/ssa uses Index for strings too)
+				if _, isStr := in.X.Type().Underlying().(*types.Basic); isStr && !inOuter(u) {
+					okUse = true
+				}
+			case *ssa.Call:
+				if b, ok := in.Call.Value.(*ssa.Builtin); ok && b.Name() == "len" && !inOuter(u) {
+					okUse = true
+				}
+				if cal := in.Call.StaticCallee(); cal != nil && cal.Pkg == fn.Pkg && depth < 2 && !inOuter(u) {
+					// the helper (an extracted expansion loop) may use its string parameters only byte by byte
+					// (s[i], len(s)) or as the source of an append (the matched text copied in for '&'):
+					// never as a whole for anything else
+					okUse = true
+					for _, hp := range cal.Params {
+						if _, isStr := hp.Type().Underlying().(*types.Basic); !isStr {
+							continue
+						}
+						sub, _ := usesOfParam(cal, hp.Name())
+						for _, su := range sub {
+							switch x := su.(type) {
+							case *ssa.Index, *ssa.Lookup:
+							case *ssa.Call:
+								b, isB := x.Call.Value.(*ssa.Builtin)
+								if !isB || (b.Name() != "len" && b.Name() != "append") {
+									okUse = false
+								}
+							default:
+								okUse = false
+							}
+						}
+					}
+				}
 			}
-		case *ssa.Index: // repl[i] (go/ssa uses Index for strings too)
-			if _, isStr := in.X.Type().Underlying().(*types.Basic); isStr && u.Parent() != fn {
-				continue
-			}
-		case *ssa.Call:
-			if b, ok := in.Call.Value.(*ssa.Builtin); ok && b.Name() == "len" && u.Parent() != fn {
-				continue
+			if !okUse {
+				all = false
+				if bad == "" {
+					bad = fmt.Sprintf("%s [%T]", u.String(), u)
+					badPos = u.Pos()
+				}
 			}
 		}
-		if bad == "" {
-			bad = fmt.Sprintf("%s [%T]", u.String(), u)
-			badPos = u.Pos()
-		}
+		return all
 	}
-	c.check(bad == "" && n >= 3, "subshare:repl", badPos,
+	byteWise(ru, func(u ssa.Instruction) bool { return u.Parent() == fn }, 0)
+	c.check(bad == "" && n >= 1, "subshare:repl", badPos,
 		"`repl` is read only byte by byte inside the replacement callback",
 		"in (*interp).sub the replacement text is used as a whole ("+bad+"): the & and backslash expansion is bypassed on that path, so the same replacement gives different text in sub() and gsub()")
 }
